@@ -35,6 +35,7 @@ type ReverseAnchoredSearcher struct {
 	reverseDFA    *lazy.DFA
 	pikevm        *nfa.PikeVM
 	forwardPikevm *nfa.PikeVM // For empty string matching (reverse NFA has issues with empty)
+	matchesEmpty  bool        // result of the pattern on the empty haystack (computed once)
 	revCachePool  sync.Pool   // Pool of *lazy.DFACache for thread-safe reverse DFA access
 }
 
@@ -73,6 +74,9 @@ func NewReverseAnchoredSearcher(forwardNFA *nfa.NFA, config lazy.Config) (*Rever
 		pikevm:        pikevm,
 		forwardPikevm: forwardPikevm,
 	}
+	// The answer for an empty haystack is a constant of the pattern: computing it
+	// here keeps the shared simulator out of the (concurrent) search paths.
+	_, _, s.matchesEmpty = forwardPikevm.Search(nil)
 	s.revCachePool = sync.Pool{
 		New: func() any { return s.reverseDFA.NewCache() },
 	}
@@ -99,11 +103,10 @@ func (s *ReverseAnchoredSearcher) Find(haystack []byte) *Match {
 	// For empty strings, use forward PikeVM
 	// Reverse NFA has issues with empty strings and certain alternations
 	if len(haystack) == 0 {
-		start, end, matched := s.forwardPikevm.Search(haystack)
-		if !matched {
+		if !s.matchesEmpty {
 			return nil
 		}
-		return NewMatch(start, end, haystack)
+		return NewMatch(0, 0, haystack)
 	}
 
 	// Use SearchReverse to find match START (zero-allocation backward scan)
@@ -130,8 +133,7 @@ func (s *ReverseAnchoredSearcher) IsMatch(haystack []byte) bool {
 	// For empty strings, use forward PikeVM
 	// Reverse NFA has issues with empty strings and certain alternations
 	if len(haystack) == 0 {
-		_, _, matched := s.forwardPikevm.Search(haystack)
-		return matched
+		return s.matchesEmpty
 	}
 
 	// Use reverse DFA to scan backward from end to start
